@@ -46,8 +46,9 @@ type schedCfg struct {
 	nGPU        int
 	gpuGB       int
 	pingFail    int
-	loadFail    int // 1/n, 0 = never
-	unloadRate  int // 1/n of clients are explicit unloads
+	loadFail    int  // 1/n, 0 = never
+	allocLag    bool // the devices report a new runner's allocation late
+	unloadRate  int  // 1/n of clients are explicit unloads
 	cancelRate  int
 	optVariants bool
 	mmapAll     bool
@@ -153,19 +154,20 @@ func drawSchedCfg(tier string) schedCfg {
 	c.mmapAll = d("mmap-all", 3) == 0
 	c.burst = d("burst", 3) == 0
 	c.slowClose = d("slowclose", 2) == 0
+	c.allocLag = d("alloc-lag?", 2) == 0
 	if d("faultfree", 5) == 0 {
 		c.pingFail, c.loadFail = 0, 0
 	}
 	switch c.arm {
 	case armReuse:
 		c.pingFail, c.loadFail, c.unloadRate, c.cancelRate = 0, 0, 0, 0
-		c.optVariants = false
+		c.optVariants, c.allocLag = false, false
 		c.maxQueue = 512
 		c.maxRunners = c.nModels + d("extra", 2)
 		c.gpuKind, c.gpuGB = 0, 48 // one large metal device: everything fits, no VRAM polling
 	case armEvictIdle:
 		c.pingFail, c.loadFail, c.unloadRate, c.cancelRate = 0, 0, 0, 0
-		c.optVariants = false
+		c.optVariants, c.allocLag = false, false
 		c.nModels = 3
 		c.maxRunners = 2
 		c.maxQueue = 512
@@ -175,9 +177,9 @@ func drawSchedCfg(tier string) schedCfg {
 }
 
 func (c schedCfg) String() string {
-	return fmt.Sprintf("arm=%s models=%d clients=%d max_loaded=%d parallel=%d max_queue=%d gpu=%s x%d %dGB pingfail=1/%d loadfail=1/%d unload=1/%d cancel=1/%d optvariants=%v burst=%v",
+	return fmt.Sprintf("arm=%s models=%d clients=%d max_loaded=%d parallel=%d max_queue=%d gpu=%s x%d %dGB pingfail=1/%d loadfail=1/%d unload=1/%d cancel=1/%d optvariants=%v burst=%v alloclag=%v",
 		[...]string{"random", "reuse", "evict-idle"}[c.arm], c.nModels, c.nClients, c.maxRunners, c.numParallel, c.maxQueue,
-		[...]string{"metal", "cuda", "cuda-multi", "rocm+cuda", "cpu"}[c.gpuKind], c.nGPU, c.gpuGB, c.pingFail, c.loadFail, c.unloadRate, c.cancelRate, c.optVariants, c.burst)
+		[...]string{"metal", "cuda", "cuda-multi", "rocm+cuda", "cpu"}[c.gpuKind], c.nGPU, c.gpuGB, c.pingFail, c.loadFail, c.unloadRate, c.cancelRate, c.optVariants, c.burst, c.allocLag)
 }
 
 func setenvOrUnset(k string, v int) {
@@ -293,6 +295,21 @@ func (w *schedWorld) newServer(gpus discover.GpuInfoList, model string, f *ggml.
 	srv.loadDur = time.Duration(1+verifsim.Draw("load-dur", 4000)) * time.Millisecond
 	if verifsim.Draw("slow-load", 12) == 0 {
 		srv.loadDur += time.Duration(verifsim.Draw("slow-load-s", 150)) * time.Second
+	}
+	// the device reports a new runner's allocation with a delay (one run in two): at some
+	// point of the load, or a while after it - the scheduler has its own predictions for that
+	if w.cfg.allocLag {
+		switch verifsim.Draw("alloc-lag", 4) {
+		case 1:
+			srv.visibleAt = srv.createdAt + time.Duration(verifsim.Draw("alloc-lag-part", int(srv.loadDur/time.Millisecond)+1))*time.Millisecond
+		case 2:
+			srv.visibleAt = srv.createdAt + srv.loadDur + time.Duration(1+verifsim.Draw("alloc-lag-ms", 30000))*time.Millisecond
+		case 3:
+			srv.visibleAt = srv.createdAt + srv.loadDur + time.Duration(1+verifsim.Draw("alloc-lag-min", 30))*time.Minute
+		}
+		if srv.visibleAt > 0 {
+			verifsim.Fault("gpu_allocation_reported_late")
+		}
 	}
 	w.srvs = append(w.srvs, srv)
 	w.note("t=%v newServer #%d %s ctx=%d parallel=%d gpus=%d loadOK=%v dur=%v", w.now(), srv.id, filepath.Base(model), opts.NumCtx, numParallel, len(gpus), srv.loadOK, srv.loadDur)
